@@ -521,3 +521,21 @@ package render
 //@   body 1 evarg("call:msToLines", 0, 0)[3] == lat2u(base, inc, x, y + 1) && evarg("call:msToLines", 0, 1)[3] == s.Evaluate(lat2u(base, inc, x, y + 1))
 //@   ensures [closes-the-output-after-the-last-cell] nev(").Close") == 1
 //@ end
+
+//@ lemma mc_vertex_within_one_edge_of_the_surface(s sdf.SDF3, p1 v3.Vec, p2 v3.Vec)
+//@   property C06
+//@   requires forall a v3.Vec, b v3.Vec :: lip3r(s, a, b)
+//@   requires s.Evaluate(p1) < 0 && 0 <= s.Evaluate(p2)
+//@   let v = merged(mcInterpolate(p1, p2, s.Evaluate(p1), s.Evaluate(p2), 0))
+//@   let tt = merged(mcInterpolate(v3.Vec{0, 0, 0}, v3.Vec{1, 0, 0}, s.Evaluate(p1), s.Evaluate(p2), 0)).X
+//@   assert [parameter-in-unit-interval] 0 <= tt && tt <= 1
+//@   assert [vertex-is-the-convex-combination] v == p1.Add(p2.Sub(p1).MulScalar(tt))
+//@   let fv = s.Evaluate(v)
+//@   let h2 = p2.Sub(p1).Length2()
+//@   assert [near-first-corner] sq(fv - s.Evaluate(p1)) <= sq(tt)*h2
+//@   assert [near-second-corner] sq(fv - s.Evaluate(p2)) <= sq(1 - tt)*h2
+//@   assert [corner-signs] s.Evaluate(p1) < 0 && 0 <= s.Evaluate(p2) && h2 >= 0
+//@   generalize v
+//@   focus parameter-in-unit-interval near-first-corner near-second-corner corner-signs
+//@   ensures [field-at-the-vertex-is-at-most-one-edge-length] sq(fv) <= h2
+//@ end
